@@ -8,6 +8,7 @@ def main(argv):
     pid = argv[1].upper()
     tier = argv[2] if len(argv) > 2 else os.environ.get('VERIF_TIER', 'quick')
     seed = int(os.environ.get('VERIF_SEED', '0') or 0)
+    os.environ['VERIF_TIER_ACTIVE'] = tier
     sys.setrecursionlimit(10000)
     mod = importlib.import_module('vf.%s' % pid.lower())
     if hasattr(mod, 'main'):
